@@ -93,6 +93,7 @@ var _ = ws.StateServerSide
 //@   ensures  [len]   outLen(self) == old(outLen(self))+n
 //@   ensures  [data]  forall(0, n, func(k int) bool { return outByte(self, old(outLen(self))+k) == p[k] })
 //@   ensures  [keep]  forall(0, old(outLen(self)), func(k int) bool { return outByte(self, k) == old(outByte(self, k)) })
+//@   ensures  [errtype] err != nil ==> !dynTypeIs(err, "wsutil.ClosedError")
 //@   assigns stream(self)
 
 // ---------------------------------------------------------------------------
@@ -366,7 +367,7 @@ func clientSide(s ws.State) bool { return s&ws.StateClientSide != 0 }
 //@   assigns nothing
 
 //@ func Writer.WriteThrough
-//@   props C06 C16 C17
+//@   props C06 C13 C16 C17
 //@   requires [ready] writerReady(w) && len(p) <= 1<<47
 //@   cases side: w.state&ws.StateClientSide != 0 | !(w.state&ws.StateClientSide != 0)
 //@   cases len: int64(len(p)) <= 125 && int64(len(p)) <= 65535 | !(int64(len(p)) <= 125) && int64(len(p)) <= 65535 | !(int64(len(p)) <= 125) && !(int64(len(p)) <= 65535)
@@ -461,6 +462,13 @@ func invControlWriter(c *ControlWriter) bool {
 //@ func NewControlWriter
 //@   props C08
 //@   requires [op] op < 16 && dest != nil && DefaultWriteBuffer > 14 && DefaultWriteBuffer <= 1<<40
+//@   ensures  [inv] invControlWriter(result) && result.n == 0 && result.w.dest == dest && result.w.op == op && result.w.state == state && result.w.err == nil && !result.w.dirty
+//@   ensures  [nonnil] result != nil
+//@   assigns nothing
+
+//@ func NewControlWriterBuffer
+//@   props C08
+//@   requires [op]  op < 16 && dest != nil && len(buf) > specReserve(state, iteInt(len(buf) > 125+specHdrLen(125, clientSide(state)), 125+specHdrLen(125, clientSide(state)), len(buf)))
 //@   ensures  [inv] invControlWriter(result) && result.n == 0 && result.w.dest == dest && result.w.op == op && result.w.state == state && result.w.err == nil && !result.w.dirty
 //@   ensures  [nonnil] result != nil
 //@   assigns nothing
@@ -641,6 +649,7 @@ func utf8FoldStep(s int, b byte) int { return specUTF8Step(s, b) }
 //@   ensures  [data]  forall(0, n, func(k int) bool { return buf[k] == inByte(r, old(inPos(r))+k) })
 //@   ensures  [short] inEnd(r)-old(inPos(r)) < len(buf) ==> err != nil && inPos(r) == inEnd(r) && n == inEnd(r)-old(inPos(r))
 //@   ensures  [eof]   err == io.EOF ==> n == 0
+//@   ensures  [errv]  err != nil ==> err == inErr(r) || err == io.ErrUnexpectedEOF
 //@   ensures  [n]     0 <= n && n <= len(buf)
 //@   ensures  [pos]   inPos(r) == old(inPos(r))+n
 //@   assigns bytes(buf), stream(r)
@@ -792,3 +801,41 @@ func iteReader(c bool, a, b io.Reader) io.Reader {
 //@   loop 1 invariant [cfg] len(r.Extensions) == 0 && r.OnContinuation == nil && r.OnIntermediate == nil
 //@   loop 1 invariant [err] err == nil
 //@   loop 1 invariant [first] (r.raw.N == old(r.raw.N) && inPos(r.Source) == old(inPos(r.Source))) || inEnd(r.Source)-old(inPos(r.Source)) >= int(old(r.raw.N))
+
+// HandleClose (C08): the decisions around a received close frame. The echo path writes p[:2] through
+// a ControlWriter whose buffer is p itself; that call is abstracted (its content is not proved here).
+//@ func ControlHandler.HandleClose
+//@   props C08
+//@   call WriteHeader inline
+//@   call ControlWriter.Write havoc
+//@   call ControlWriter.Flush havoc
+//@   requires [hdr]  c.Dst != nil && c.Src != nil && streamOK(c.Src) && 0 <= h.Length && h.Length <= 125
+//@   requires [plain] c.DisableSrcCiphering || c.State&ws.StateServerSide == 0
+//@   requires [srcerr] !dynTypeIs(inErr(c.Src), "wsutil.ClosedError")
+//@   ensures  [empty] h.Length == 0 && result != nil && dynTypeIs(result, "wsutil.ClosedError") ==> outLen(c.Dst) == old(outLen(c.Dst))+iteInt(clientSide(c.State), 6, 2) && outByte(c.Dst, old(outLen(c.Dst))) == 0x88 && outByte(c.Dst, old(outLen(c.Dst))+1) == byte(iteInt(clientSide(c.State), 0x80, 0))
+//@   ensures  [empty1005] h.Length == 0 && dynTypeIs(result, "wsutil.ClosedError") ==> result.(ClosedError).Code == ws.StatusNoStatusRcvd
+//@   ensures  [nocode] h.Length == 1 ==> result != nil && !dynTypeIs(result, "wsutil.ClosedError")
+//@   ensures  [cut]   h.Length > 0 && inEnd(c.Src)-old(inPos(c.Src)) < int(h.Length) ==> result != nil && !dynTypeIs(result, "wsutil.ClosedError")
+//@   ensures  [never-nil] result != nil
+
+//@ func ControlHandler.HandlePing
+//@   props C08
+//@   call WriteHeader inline
+//@   call io.Copy havoc
+//@   call ControlWriter.Flush havoc
+//@   requires [hdr]  c.Dst != nil && c.Src != nil && 0 <= h.Length && h.Length <= 125
+//@   ensures  [empty] h.Length == 0 && result == nil ==> outLen(c.Dst) == old(outLen(c.Dst))+iteInt(clientSide(c.State), 6, 2) && outByte(c.Dst, old(outLen(c.Dst))) == 0x8a && outByte(c.Dst, old(outLen(c.Dst))+1) == byte(iteInt(clientSide(c.State), 0x80, 0)) && outCalls(c.Dst) == old(outCalls(c.Dst))+1
+//@   ensures  [emptykeep] h.Length == 0 ==> forall(0, old(outLen(c.Dst)), func(k int) bool { return outByte(c.Dst, k) == old(outByte(c.Dst, k)) })
+
+//@ func ControlHandler.HandlePong
+//@   props C08
+//@   call io.CopyBuffer havoc
+//@   requires [hdr]  c.Src != nil && 0 <= h.Length && h.Length <= 125
+//@   ensures  [empty] h.Length == 0 ==> result == nil
+
+//@ func ControlHandler.Handle
+//@   props C08
+//@   call ControlHandler.HandlePing havoc
+//@   call ControlHandler.HandlePong havoc
+//@   call ControlHandler.HandleClose havoc
+//@   ensures [other] h.OpCode != ws.OpPing && h.OpCode != ws.OpPong && h.OpCode != ws.OpClose ==> result == ErrNotControlFrame
